@@ -782,6 +782,11 @@ def c13_space(max_files, m0=None):
         other = t_mod(m0, fresh, 'e/i')
         for combo in ([a, b], [b, a], [c, a], [a, c], [a, other, b], [a, d], [b, a, d]):
             out.append([Patch(list(combo))])
+        # ... with a failing entry for another file (or two) in between: the sections of one file are not next to each other in the patch
+        of1, of2 = t_modfail(m0, fresh, 'e/i'), t_partial(m0, fresh, 'd/h')
+        for combo in ([a, of1, b], [b, of1, a], [a, of1, of2, b], [c, of1, a, of2, d]):
+            if all(x is not None for x in combo):
+                out.append([Patch(list(combo))])
         out.append([Patch([t_mod(m0, fresh, 'd/h')]), Patch([a, b]), Patch([t_mod(m0, fresh, 'd/h', i=4)])])
     # context-free hunks with a zero-length side among the failed ones: the reject must carry both line numbers as written
     fresh = Fresh()
